@@ -90,6 +90,10 @@ def run(prop: str, tier: str, seed: int) -> int:
                     rep.violation(c, {"T": e[2], "input": e[3], "expected": exp, "actual": e[4], "channel": "V"})
         if devents:
             rep.sample({"channel": "V", "event": devents[len(devents) // 2]})
+    if prop == "C08":
+        # keyword arguments on lazily compiled classes: the FIRST call must already honour them (sys/Mashumaro.tla histories)
+        from harness.checks import sys_props
+        sys_props.run_into(rep, "C08", tier, seed)
     rep.assumptions += [
         "reference operators spec/ref/{Pack,Unpack}.tla (FromDict, PackDC, EffOpt, FieldKey) transcribe README + property statements (DESIGN.md App. A.4)",
         "bridge harness/terms.py + harness/classes.py build real classes from class terms without expectations",
